@@ -487,8 +487,12 @@ def model_terms(pb, m):
 
 
 def tolerances(pb):
+    """cl1 itself accepts a vector when every equality row is satisfied within check_toler = 10*toler and every inequality row within
+    the same amount (cl1.cpp, 'Check calculation'); toler is the run's -tolerance.  An element balance is the sum of its valence-state
+    rows, hence the factor max(number of states)."""
     t = pb["toler"]
-    return {"tolb": t, "tolu": t, "tolr": Fr(1, 10**6)}
+    ms = max([len(r_["states"]) for r_ in pb["rows"]] or [1])
+    return {"tolb": 10 * t * ms, "tolu": 10 * t, "tolr": Fr(1, 10**6)}
 
 
 def py_residuals(pb, mt):
@@ -1077,5 +1081,5 @@ def run(ctx):
                 "-range, -minimal, -tolerance, -mineral_water, -multiple_precision, per-element/absolute uncertainties; a case is non-trivial "
                 "when at least one model is reported; each reported model is one evaluation of the Coq checker")
     ctx.extra["statistics"] = dict(stats)
-    ctx.notes += ["mole-balance residuals are evaluated exactly (Q) on the solver's own vector (hex doubles); tolerance = the run's -tolerance (toler)",
+    ctx.notes += ["mole-balance residuals are evaluated exactly (Q) on the solver's own vector (hex doubles); tolerance = cl1's own acceptance threshold 10*toler per row (toler = the run's -tolerance)",
                   "range membership uses relative slack 1e-6*(1+|v|); support threshold = TOL (1e-9) as in solve_inverse"]
